@@ -3,7 +3,7 @@ from vlib import histprop, oracles
 from vlib.props import _hist_common as hc
 from vlib.props._hist_common import TRUSTED_BASE, ASSUMPTIONS, CORRESPONDENCE
 # every step is followed by several listings (plain, globs with classes / alternatives / escapes, malformed patterns)
-BUDGET = {"quick": dict(hc.BUDGET["quick"], histories=350), "thorough": hc.BUDGET["thorough"]}
+BUDGET = {"quick": dict(hc.BUDGET["quick"], histories=150), "thorough": hc.BUDGET["thorough"]}
 
 RULE = ("operation histories (new/cp/mv external+internal/rm/reset/commit/upgrade/purge over up to 5 objects, all layouts and none, hostile ids, both staging "
         "placements; listings with literal, *, ?, [..], [!..], {a,b}, \\x and malformed globs after every step) generated interactively against the implementation so that sources, globs and destinations hit existing paths; "
@@ -11,7 +11,7 @@ RULE = ("operation histories (new/cp/mv external+internal/rm/reset/commit/upgrad
 
 
 def make_gen(rng, budget, live, case):
-    return hc.make_gen(rng, budget, live, case, n_objects=5, observe_ls=True, hostile_ids=(rng.random() < 0.5), weights=[25, 4, 6, 6, 6, 3, 6, 30, 10, 2, 6])
+    return hc.make_gen(rng, budget, live, case, n_objects=5, observe_ls=True, two_clients=(rng.random() < 0.25), hostile_ids=(rng.random() < 0.5), weights=[25, 4, 6, 6, 6, 3, 6, 30, 10, 2, 6])
 
 
 def make_oracles(contents, gen):
